@@ -171,10 +171,23 @@ def run(ctx):
         with open(tf, 'wb') as f:
             f.write(('\n'.join(pws) + '\n').encode(enc))
         rd = os.path.join(common.scratch_dir('rules'), 'c06r')
+        if i >= 2 and os.path.isdir(rd):
+            # the existing ruleset went through a transport that drops empty directories (git, zip): the folders of categories the
+            # previous list did not have are gone when the rule name is trained again
+            for sub in sorted(os.listdir(rd)):
+                full_sub = os.path.join(rd, sub)
+                if os.path.isdir(full_sub) and not os.listdir(full_sub):
+                    os.rmdir(full_sub)
+                    dist['empty_folders_dropped'] = dist.get('empty_folders_dropped', 0) + 1
         ok, log = common.train(tf, rd, encoding=enc, ngram=rng.choice([2, 3, 4]), coverage=cov, keep=(i > 0))
         cases += 1
         dist['coverage'][str(cov)] = dist['coverage'].get(str(cov), 0) + 1
         if not ok:
+            # the trainer may refuse a list (nothing valid in it, or no n-gram for the Markov part); any other failure leaves a
+            # ruleset on disk that is not the model of this list
+            if 'no valid passwords were found' not in log and 'unable to create any Markov/OMEN NGrams' not in log:
+                viol.append({'property': 'C06', 'kind': 'training-failed', 'log_tail': log[-300:],
+                             'witness': {'passwords': pws, 'coverage': cov, 'previous': prev, 'dropped_empty_folders': i >= 2}})
             continue
         vs, g, n_valid = check_trained(rd, tf, enc, cov, {'passwords': pws, 'coverage': cov, 'previous': prev}, dist)
         viol += vs
@@ -308,8 +321,14 @@ def replay(ctx, payload):
         for k, st in enumerate(steps):
             with open(tf, 'wb') as f:
                 f.write(('\n'.join(st['passwords']) + '\n').encode('utf-8'))
-            ok, _ = common.train(tf, rd, encoding='utf-8', ngram=3, coverage=st['coverage'], keep=(k > 0))
+            if k > 0 and w.get('dropped_empty_folders'):
+                for sub in sorted(os.listdir(rd)):
+                    if os.path.isdir(os.path.join(rd, sub)) and not os.listdir(os.path.join(rd, sub)):
+                        os.rmdir(os.path.join(rd, sub))
+            ok, log = common.train(tf, rd, encoding='utf-8', ngram=3, coverage=st['coverage'], keep=(k > 0))
             if not ok:
-                return []
+                if 'no valid passwords were found' in log or 'unable to create any Markov/OMEN NGrams' in log:
+                    return []
+                return [{'kind': 'training-failed', 'log_tail': log[-200:]}]
         return check_trained(rd, tf, 'utf-8', w['coverage'], {}, {})[0]
     return []
